@@ -5,6 +5,7 @@ pub mod h_tree;
 pub mod h_pack;
 pub mod h_melda;
 pub mod h_c08;
+pub mod h_c03;
 pub mod h_c04;
 pub mod h_c15;
 pub mod h_c10;
@@ -19,6 +20,7 @@ pub fn dispatch(name: &str) -> bool {
         "h_tree::tree_rule" => h_tree::tree_rule(),
         "h_pack::pack_roundtrip" => h_pack::pack_roundtrip(),
         "h_melda::smoke" => h_melda::smoke(),
+        "h_c03::commit_reopen" => h_c03::commit_reopen(),
         "h_c04::update_read" => h_c04::update_read(),
         "h_c04::array_chain" => h_c04::array_chain(),
         "h_c15::stage_roundtrip" => h_c15::stage_roundtrip(),
